@@ -81,7 +81,8 @@ Definition below_limit (lim : option N) (t : table) : Prop :=
 Inductive fref :=
 | FPath (p : N)                   (* the file found at path key p when it was opened *)
 | FAnon (content : list N) (off : N)    (* unnamed temporary file (here-document) *)
-| FAnonDirty.                          (* ... after a diagnostic message of unknown text was written to it *)
+| FAnonDirty                           (* ... after a diagnostic message of unknown text was written to it *)
+| FPipe.                               (* one end of a pipe *)
 
 Record ofd := mkOfd { o_file : fref; o_r : bool; o_w : bool; o_app : bool }.
 
@@ -214,6 +215,32 @@ Definition k_open (s : kst) (p : pth) (r w : bool) (fl : oflags) : kst * res N :
   | Ok k =>
       let (s2, id) := new_ofd s1 (mkOfd (FPath k) r w (f_append fl)) in
       alloc_fd s2 0 (mkEnt id false)
+  end.
+
+(* Open::open with O_CLOEXEC, read-only, no other flag (how the shell opens a
+   script for its own use) *)
+Definition k_open_cx (s : kst) (p : pth) : kst * res N :=
+  let (f', rk) := k_resolve (k_fs s) p (mkFl false false false false) in
+  let s1 := with_fs s f' in
+  match rk with
+  | Err e => (s1, Err e)
+  | Ok k =>
+      let (s2, id) := new_ofd s1 (mkOfd (FPath k) true false false) in
+      alloc_fd s2 0 (mkEnt id true)
+  end.
+
+(* Pipe::pipe: reader then writer, each at the lowest unused descriptor; the
+   reader is closed again if the writer cannot be allocated *)
+Definition k_pipe (s : kst) : kst * res (N * N) :=
+  let (s1, rid) := new_ofd s (mkOfd FPipe true false false) in
+  let (s2, wid) := new_ofd s1 (mkOfd FPipe false true false) in
+  match alloc_fd s2 0 (mkEnt rid false) with
+  | (s3, Err e) => (s3, Err e)
+  | (s3, Ok r) =>
+      match alloc_fd s3 0 (mkEnt wid false) with
+      | (s4, Err e) => (k_close s4 r, Err e)
+      | (s4, Ok w) => (s4, Ok (r, w))
+      end
   end.
 
 (* Open::open_tmpfile followed by here_doc::fill_content (write, lseek 0) *)
